@@ -352,6 +352,35 @@ theorem HInv.reclaim {st : St} (h : HInv st) (sid : Nat) : HInv (st.reclaim sid)
         have ht' : t ∈ st.sessions.filter (fun t => t.sid ≠ sid) := ht
         exact h.fresh t (List.mem_filter.mp ht').1
 
+theorem HInv.clientFree {st : St} (h : HInv st) (sid : Nat) : HInv (st.clientFree sid) := by
+  unfold St.clientFree
+  split
+  · exact h
+  · rename_i s hs
+    obtain ⟨hm, hsid⟩ := getSess_some hs
+    split
+    · exact h
+    · rename_i hr
+      have hr0 : s.ref = 0 := by
+        have : s.ref = 0 ∧ s.client = true := by simpa using hr
+        exact this.1
+      have hz : st.holds sid = 0 := by rw [← hsid, ← h.ref s hm]; exact hr0
+      constructor
+      · intro t ht
+        have ht' : t ∈ st.sessions.filter (fun t => t.sid ≠ sid) := ht
+        exact h.ref t (List.mem_filter.mp ht').1
+      · intro y hy
+        obtain ⟨t, ht, e⟩ := h.live y hy
+        refine ⟨t, ?_, e⟩
+        show t ∈ st.sessions.filter (fun t => t.sid ≠ sid)
+        apply List.mem_filter.mpr
+        refine ⟨ht, ?_⟩
+        have := (holds_zero_iff st sid).mp hz y hy
+        simp [e]; exact this
+      · intro t ht
+        have ht' : t ∈ st.sessions.filter (fun t => t.sid ≠ sid) := ht
+        exact h.fresh t (List.mem_filter.mp ht').1
+
 theorem HInv.holder_sid_lt {st : St} (h : HInv st) {x : Holder} (hx : x ∈ st.holders) : x.sid < st.next := by
   obtain ⟨s, hs, e⟩ := h.live x hx
   rw [← e]; exact h.fresh s hs
@@ -360,7 +389,7 @@ theorem HInv.newSession {st : St} (h : HInv st) (p : Peer) : HInv (st.newSession
   unfold St.newSession
   constructor
   · intro t ht
-    have ht' : t ∈ st.sessions ++ [⟨st.next, st.nsess, p, 0, st.now, 0, 0, 0, false, 0⟩] := ht
+    have ht' : t ∈ st.sessions ++ [⟨st.next, st.nsess, p, 0, st.now, 0, 0, 0, false, 0, false⟩] := ht
     show _ = List.countP _ st.holders
     rcases List.mem_append.mp ht' with h1 | h1
     · exact h.ref t h1
@@ -374,7 +403,7 @@ theorem HInv.newSession {st : St} (h : HInv st) (p : Peer) : HInv (st.newSession
     obtain ⟨t, ht, e⟩ := h.live y hy
     exact ⟨t, List.mem_append.mpr (Or.inl ht), e⟩
   · intro t ht
-    have ht' : t ∈ st.sessions ++ [⟨st.next, st.nsess, p, 0, st.now, 0, 0, 0, false, 0⟩] := ht
+    have ht' : t ∈ st.sessions ++ [⟨st.next, st.nsess, p, 0, st.now, 0, 0, 0, false, 0, false⟩] := ht
     show _ < st.next + 1
     rcases List.mem_append.mp ht' with h1 | h1
     · have := h.fresh t h1; omega
